@@ -573,6 +573,8 @@ def run(ctx):
             [('inf', i) for i in range(40 if q else 300)]
     ctx.rng.shuffle(items)
     check.pmap(ctx, 'props.c18', 'one', items, case_timeout=240 if q else 900)
+    # field-level correspondence with the Lean model of __getstate__/__setstate__ (PGModel/Serialize.lean, driver command `serial`)
+    check.pmap(ctx, 'props.corr_models', 'one_serial', list(range(16 if q else 120)), case_timeout=600)
 
 
 def replay(ctx, payload):
